@@ -555,6 +555,9 @@ public:
 				else if constexpr (std::is_same_v<T, uint64_t>) {
 					mRootJson.SetUint64(value);
 				}
+				else if constexpr (std::is_unsigned_v<T>) {
+					mRootJson.SetUint(value);
+				}
 				else {
 					mRootJson.SetInt(value);
 				}
